@@ -16,8 +16,10 @@ FN = re.compile(r"^\s*(?:pub(?:\([^)]*\))?\s+)?fn\s+([A-Za-z0-9_]+)\s*\(")
 
 
 class Harness:
-    def __init__(self, rel, name, props, tier, expect, fns, note, unwind):
+    def __init__(self, rel, name, props, tier, expect, fns, note, unwind, quick=None):
         self.rel, self.name, self.props, self.tier = rel, name, props, tier
+        # properties for which this harness is part of the quick tier (None: all of its properties, if tier=quick)
+        self.quick = quick
         self.expect, self.fns, self.note, self.unwind = expect, fns, note, unwind
         self.full = module_path(rel) + "::" + name
 
@@ -69,7 +71,8 @@ def discover(overlay=OVERLAY):
                     default_prop = name.split("_")[0].upper()
                     props = kv.get("props", default_prop).split(",")
                     out.append(Harness(rel, name, props, kv.get("tier", "quick"), kv.get("expect", "pass"),
-                                       [f for f in kv.get("fns", "").split(",") if f], kv.get("note", ""), unwind))
+                                       [f for f in kv.get("fns", "").split(",") if f], kv.get("note", ""), unwind,
+                                       quick=[q for q in kv["quick"].split(",") if q] if "quick" in kv else None))
                 i = k
             i += 1
     return out
@@ -78,7 +81,7 @@ def discover(overlay=OVERLAY):
 def select(harnesses, prop, tier):
     sel = [h for h in harnesses if prop in h.props]
     if tier == "quick":
-        sel = [h for h in sel if h.tier == "quick"]
+        sel = [h for h in sel if (h.quick is not None and (prop in h.quick or prop.startswith("STEP") and h.quick)) or (h.quick is None and h.tier == "quick")]
     return sel
 
 
